@@ -113,7 +113,7 @@ def exp_prolog_en(tree):
     def rec(t):
         if t.is_leaf:
             k = t.token
-            return ('L', D.cat_prolog_en(t.cat), word_of(t), (('chunk', k['chunk']), ('entity', k['entity']), ('lemma', k['lemma']), ('pos', k['pos'])))
+            return ('L', D.cat_prolog_en(t.cat), word_of(t), (('chunk', k.get('chunk', 'XX')), ('entity', k.get('entity', 'XX')), ('lemma', k.get('lemma', 'XX')), ('pos', k.get('pos', 'XX'))))
         c = D.cat_prolog_en(t.cat)
         if t.is_unary:
             return ('T', c, (('childcat', D.cat_prolog_en(t.child.cat)), ('rule', 'lx')), rec(t.child))
@@ -419,6 +419,8 @@ def covering_trees(lang, missing):
 
 # ---------------------------------------------------------------- tree families
 def make_tree(t, words, lang, rich=True):
+    if rich == 'sparse':
+        return T.build(t, words, lambda w, i: T.sparse_token(w, i))
     if lang == 'en':
         return T.build(t, words, lambda w, i: T.en_token(w, i, rich))
     return T.build(t, words, lambda w, i: T.ja_token(w, i))
@@ -455,6 +457,8 @@ def families(lang, tier, tokens, max_pairs=None):
             n = T.n_leaves(t)
             default = [f'w{i}' for i in range(n)]
             yield name, t, default
+            if n >= 2 and idx % 2 == 0:
+                yield name, t, ['same'] * n          # a repeated word whose tokens are equal dicts
             if n == 1:
                 for w in tokens:
                     yield name, t, [w]
